@@ -59,6 +59,10 @@ impl Family for C18 {
       ("new_waker_after", Json::Int(if rng.below(3) == 0 { rng.range(1, 2) as i64 } else { -1 })),
       // a clone of the future, polled once after the original has resolved, yields the same result
       ("second_handle", Json::Bool(rng.below(3) == 0)),
+      // a second source thread signals an error of its own at a scheduler-chosen point (a watchdog
+      // racing the emitter): one of the two terminals wins, and the future must resolve with it;
+      // -1 = absent, otherwise the number of scheduling points it lets pass first
+      ("watchdog_wait", Json::Int(if rng.below(4) == 0 { rng.below(12) as i64 } else { -1 })),
     ])
   }
   fn knobs(&self, rng: &mut Rng, _w: &Json, _tier: Tier) -> Json {
@@ -82,6 +86,9 @@ impl Family for C18 {
     let check_sub = w.b("check_subscribed");
     let new_waker_after = if w.get("new_waker_after").is_some() { w.i("new_waker_after") } else { -1 };
     let second_handle = w.get("second_handle").is_some() && w.b("second_handle");
+    let watchdog = if w.get("watchdog_wait").is_some() { w.i("watchdog_wait").clamp(-1, 40) } else { -1 };
+    // (the watchdog variant always has its emitter on a thread of its own)
+    let threaded = threaded || watchdog >= 0;
     let second: Arc<Mutex<Option<Option<Result<Vec<i64>, i64>>>>> = Arc::new(Mutex::new(None));
     let second2 = second.clone();
     let src_log = Arc::new(Mutex::new(SrcLog::default()));
@@ -92,7 +99,28 @@ impl Family for C18 {
     let flb = flag_b.clone();
     let res = rt::run(cfg, move || {
       let handles = Arc::new(Mutex::new(Vec::new()));
-      let o = if threaded {
+      let o = if watchdog >= 0 {
+        let handles = handles.clone();
+        another_rxrust::prelude::Observable::create(move |s: another_rxrust::prelude::Observer<'static, Val>| {
+          let (s2, sl2, sc) = (s.clone(), sl.clone(), sc.clone());
+          let h1 = rt::spawn_harness("to_vec-source", move || {
+            for st in &sc {
+              if check_sub && !s2.is_subscribed() {
+                break;
+              }
+              emit(&s2, 0, st, &sl2, &None);
+            }
+          });
+          let (s3, sl3) = (s.clone(), sl.clone());
+          let h2 = rt::spawn_harness("to_vec-watchdog", move || {
+            for _ in 0..watchdog {
+              rt::probe("c18-watchdog-wait");
+            }
+            emit(&s3, 1, &Step::E(9), &sl3, &None);
+          });
+          handles.lock().unwrap().extend([h1, h2]);
+        })
+      } else if threaded {
         threaded_source("to_vec-source", sc, sl, check_sub, vec![], handles.clone())
       } else {
         cold_source(vec![sc], sl, None, check_sub)
@@ -157,7 +185,12 @@ impl Family for C18 {
     let blame = "to_vec";
     let polls = polls.lock().unwrap().clone();
     let emits = src_log.lock().unwrap().emits.clone();
-    let term = emits.iter().find(|e| !matches!(e.step, Step::N(_)));
+    // with a watchdog there are two terminal calls: nothing may be ready before the first one starts,
+    // and everything must be once both have returned
+    let terms: Vec<&Emit> = emits.iter().filter(|e| !matches!(e.step, Step::N(_))).collect();
+    let term_first_start = terms.iter().map(|e| e.seq_start).min();
+    let all_terms_done = if watchdog >= 0 && terms.len() < 2 && !check_sub { None } else { terms.iter().map(|e| e.seq_end).max() };
+    let term = terms.first().copied();
     let mut history: Vec<String> = Vec::new();
     for e in &emits {
       history.push(format!("{:>4}..{:<4} source {}", e.seq_start, e.seq_end, e.step.show()));
@@ -176,26 +209,27 @@ impl Family for C18 {
         _ => Ok(expect_items),
       };
       if let Some(r2) = second.lock().unwrap().clone() {
-        if r2 != Some(expect.clone()) {
+        let first_result = polls.last().and_then(|p| p.ready.clone());
+        if r2 != Some(expect.clone()) && !(watchdog >= 0 && r2 == first_result && r2 == Some(Err(9))) {
           v.push(Violation::new("wrong-result", blame, format!("a clone of the future, polled after the original had resolved, yielded {:?}; the source script {:?} demands {:?}", r2, script.iter().map(|s| s.show()).collect::<Vec<_>>(), expect)));
         }
       }
       match polls.last() {
         Some(PollRec { ready: Some(r), .. }) => {
-          if *r != expect {
+          if *r != expect && !(watchdog >= 0 && *r == Err(9)) {
             v.push(Violation::new("wrong-result", blame, format!("future yielded {:?}, source script {:?} demands {:?}", r, script.iter().map(|s| s.show()).collect::<Vec<_>>(), expect)));
           }
         }
         _ => v.push(Violation::new("never-ready", blame, format!("future not ready after {} polls although the source terminated", polls.len()))),
       }
       for p in &polls {
-        match (&p.ready, term) {
-          (Some(_), Some(t)) if p.seq_end < t.seq_start => {
-            v.push(Violation::new("ready-before-termination", blame, format!("poll returned Ready at {} before the source's terminal call started at {}", p.seq_end, t.seq_start)))
+        match (&p.ready, term_first_start, all_terms_done) {
+          (Some(_), Some(t0), _) if p.seq_end < t0 => {
+            v.push(Violation::new("ready-before-termination", blame, format!("poll returned Ready at {} before the source's terminal call started at {}", p.seq_end, t0)))
           }
-          (Some(_), None) => v.push(Violation::new("ready-before-termination", blame, "poll returned Ready but the source never signalled a terminal".into())),
-          (None, Some(t)) if p.seq_start > t.seq_end => {
-            v.push(Violation::new("pending-after-termination", blame, format!("poll started at {} after the source's terminal call returned at {} and still returned Pending", p.seq_start, t.seq_end)))
+          (Some(_), None, _) => v.push(Violation::new("ready-before-termination", blame, "poll returned Ready but the source never signalled a terminal".into())),
+          (None, _, Some(t1)) if p.seq_start > t1 => {
+            v.push(Violation::new("pending-after-termination", blame, format!("poll started at {} after the source's terminal call(s) had returned at {} and still returned Pending", p.seq_start, t1)))
           }
           _ => {}
         }
